@@ -93,7 +93,11 @@ func checkC05(c *Ctx) {
 		maxN = 8
 	}
 	var jobs []Job
-	for _, g := range ConflictCorpus {
+	ccorpus := ConflictCorpus
+	if os.Getenv("GV_RANDOM_ONLY") != "" {
+		ccorpus = nil
+	}
+	for _, g := range ccorpus {
 		ga := g.WithRecordingActions()
 		t, err := c.parserTarget(ga, true, append(parserHarness, "genparser/c05.go")...)
 		if err != nil {
@@ -259,7 +263,7 @@ var c06Grammars = map[string]bool{"G01": true, "G02": true, "G03": true, "G04": 
 func checkC06(c *Ctx) {
 	maxN := 3
 	if !c.Quick() {
-		maxN = 5
+		maxN = 4 // N=5 exceeded the memory of this machine (prefix oracle for every extension)
 	}
 	var jobs []Job
 	for _, g := range SynCorpus {
@@ -308,10 +312,14 @@ func (c *Ctx) parserTarget(g *SynGrammar, withActions bool, harness ...string) (
 func checkC02(c *Ctx) {
 	maxN := 4
 	if !c.Quick() {
-		maxN = 6
+		maxN = 5 // N=6 needs > 12 GiB for the right-recursive nullable list G02
 	}
 	var jobs []Job
-	for _, g := range SynCorpus {
+	corpus := SynCorpus
+	if os.Getenv("GV_RANDOM_ONLY") != "" {
+		corpus = nil
+	}
+	for _, g := range corpus {
 		t, err := c.parserTarget(g, false, parserHarness...)
 		if err != nil {
 			c.Inconclusive = append(c.Inconclusive, err.Error())
